@@ -246,3 +246,13 @@ fn nodes_into_order(mut nodes: IndexMap<NaiveDateTime, Number>, ad: ADOrder, id:
         }
     }
 }
+
+/// Verification hook: public entry to the (private) node ordering / tagging step of `Curve::new`.
+#[cfg(feature = "verif-hooks")]
+pub fn verif_nodes_into_order(
+    nodes: IndexMap<NaiveDateTime, Number>,
+    ad: ADOrder,
+    id: &str,
+) -> Nodes {
+    nodes_into_order(nodes, ad, id)
+}
